@@ -26,4 +26,7 @@ class Life(BaseAnalysis):
 
     def integer(self, dyn_ast, iid, val):
         self._w("ev")
+        if val == 99:
+            # an exception that starts INSIDE an analysis hook (the program may or may not handle it)
+            raise ValueError("raised by the hook")
 EXITCODE = 3
